@@ -193,9 +193,6 @@ def judge_file(data, st, case, quick_blocks=None):
     #       style before a header: a reader may refuse them, but if it
     #       accepts them the records must not change
     for j, rec in enumerate(exp):
-        if j == 0:
-            continue
-
         hstart = rec['span'][0]
 
         for filler in (b'  \n', b'\t\n', b' \r\n', b'\r\n', b'\n',
